@@ -108,7 +108,7 @@ func (l *NativeArrayList[T]) CloneArrayList(capacity int) ArrayList {
 }
 
 func (l *NativeArrayList[T]) SliceArrayList(from, to int) ArrayList {
-	n := (*l)[from:to]
+	n := (*l)[from:to:to]
 	return &n
 }
 
